@@ -62,7 +62,7 @@ func classify(s *Spec, t *Taint, inMark bool) {
 	}
 	N := func(i int) { mark(t.Neutral, s.S[i]) }
 	switch s.K {
-	case "new", "wrap", "withmsg":
+	case "new", "wrap", "withmsg", "wrapferr":
 		Sf(0)
 	case "newf", "assertf", "wrapf", "withmsgf", "safedetails", "assertwrap", "newfw", "newfwsuffix":
 		Sf(0)
